@@ -54,6 +54,7 @@ type SimSCTP struct {
 	wait   chan struct{}
 	parked bool
 	closed bool
+	errSeen bool
 	writes []sctpWrite
 	reads  int
 	tag    int
@@ -89,6 +90,7 @@ func (s *SimSCTP) SCTPRead(b []byte) (int, *sctp.SndRcvInfo, error) {
 		}
 		if s.rerr != nil {
 			err := s.rerr
+			s.errSeen = true
 			s.mu.Unlock()
 			return 0, nil, err
 		}
@@ -194,6 +196,13 @@ func (s *SimSCTP) Close() error {
 	s.wakeLocked()
 	s.mu.Unlock()
 	return nil
+}
+
+// EndSeen reports whether a read has returned the end condition to the library.
+func (s *SimSCTP) EndSeen() bool {
+	s.mu.Lock()
+	defer s.mu.Unlock()
+	return s.errSeen
 }
 
 func (s *SimSCTP) IsClosed() bool {
